@@ -11,9 +11,9 @@ m = {
     "setup_cmd": "cd /verif/engine && GOFLAGS=-mod=mod GOPROXY=off go build -o /verif/bin/symgo ./cmd/symgo && /verif/bin/symgo -selftest-simp 20 -seed 7",
     "hooks": {
         "guard": "verif",
-        "enable": "none needed: harnesses and the zzverif API are injected as build overlays (go/packages Overlay for the symbolic engine, go build -overlay for native replay); /repo is never modified by a check",
+        "enable": "harnesses and the zzverif API are injected as build overlays (go/packages Overlay for the symbolic engine, go build -overlay for native replay); the native replay binary is built with -tags verif, which turns on the one source hook (schedule point in processAsync, klog/parser/engine/schedule_point_verif.go) so that a delivery order found by the engine can be forced natively; checks never modify /repo",
         "baseline_off_cmd": "cd /repo && go test -vet=off -count=1 ./...",
-        "source_commits": [],
+        "source_commits": ["489fe59"],
         "add_only": True,
     },
     "engines": [{
